@@ -203,10 +203,43 @@ func (s *summary) write(outDir string) {
 func safeCheck[C any](check func(C) Result, c C) (r Result) {
 	defer func() {
 		if p := recover(); p != nil {
-			r = Result{Violation: fmt.Sprintf("panic: %v\n%s", p, debug.Stack())}
+			r = Result{Violation: fmt.Sprintf("panic: %v\n%s", p, CleanStack(debug.Stack()))}
 		}
 	}()
 	return check(c)
+}
+
+// CleanStack strips everything from a stack trace that differs between two runs of the same case
+// (goroutine numbers, argument values, pc offsets): rapid only shrinks failures whose message
+// reproduces byte for byte.
+func CleanStack(st []byte) string {
+	var b strings.Builder
+	n := 0
+	for _, line := range strings.Split(string(st), "\n") {
+		if strings.HasPrefix(line, "goroutine ") || line == "" {
+			continue
+		}
+		if strings.HasPrefix(line, "\t") {
+			if i := strings.LastIndex(line, " +0x"); i >= 0 {
+				line = line[:i]
+			}
+		} else if i := strings.LastIndex(line, "("); i >= 0 && strings.HasSuffix(line, ")") {
+			line = line[:i]
+		}
+		if strings.HasPrefix(line, "created by ") {
+			if i := strings.Index(line, " in goroutine"); i >= 0 {
+				line = line[:i]
+			}
+		}
+		b.WriteString(line)
+		b.WriteByte('\n')
+		n++
+		if n > 60 {
+			b.WriteString("...\n")
+			break
+		}
+	}
+	return b.String()
 }
 
 type failDoc struct {
@@ -308,11 +341,15 @@ func Run[C any](t *testing.T, id string, gen func(*rapid.T) C, check func(C) Res
 
 	var lastFail string
 	var lastViolation string
+	noteCurrent := os.Getenv("VERIF_NOTE_CURRENT") != ""
 	rapid.Check(t, func(rt *rapid.T) {
 		c := gen(rt)
 		caseJSON, err := json.Marshal(c)
 		if err != nil {
 			rt.Fatalf("case not serialisable: %v", err)
+		}
+		if noteCurrent {
+			NoteCurrent(id, c)
 		}
 		r := safeCheck(check, c)
 		s.record(caseJSON, c, r)
